@@ -5,6 +5,7 @@ import (
 	"fmt"
 	"hash/fnv"
 	"math/rand"
+	"os"
 	"time"
 )
 
@@ -233,6 +234,10 @@ func (w *World) execLogged(p Profile, op Op) {
 	w.Log = append(w.Log, op)
 	w.Stats.Ops++
 	w.Tracef("op %d %s", w.curOp, op)
+	if Trace {
+		bz, _ := json.Marshal(op)
+		fmt.Fprintf(os.Stderr, "op %s\n", bz)
+	}
 	p.Exec(w, op)
 }
 
@@ -287,3 +292,7 @@ func (w *World) Dur() time.Duration {
 		return time.Duration(w.Rng.Int63n(int64(30 * time.Hour)))
 	}
 }
+
+// Trace (IBCSIM_TRACE=1) prints every operation and transaction result to stderr: a development
+// aid for reading replays; it draws nothing from the PRNG and changes no decision.
+var Trace = os.Getenv("IBCSIM_TRACE") != ""
